@@ -58,11 +58,11 @@ func (f *Subtract) Call(s *slip.Scope, args slip.List, depth int) (dif slip.Obje
 				case slip.DoubleFloat:
 					dif = -td
 				case *slip.LongFloat:
-					dif = (*slip.LongFloat)((*big.Float)(td).Neg((*big.Float)(td)))
+					dif = (*slip.LongFloat)(new(big.Float).Neg((*big.Float)(td)))
 				case *slip.Bignum:
-					dif = (*slip.Bignum)((*big.Int)(td).Neg((*big.Int)(td)))
+					dif = (*slip.Bignum)(new(big.Int).Neg((*big.Int)(td)))
 				case *slip.Ratio:
-					dif = (*slip.Ratio)((*big.Rat)(td).Neg((*big.Rat)(td)))
+					dif = (*slip.Ratio)(new(big.Rat).Neg((*big.Rat)(td)))
 				case slip.Complex:
 					dif = slip.Complex(-complex128(td))
 				}
